@@ -274,10 +274,18 @@ def digest(obj) -> str:
 # ------------------------------------------------------------------ known findings
 
 def load_known() -> list[dict]:
-    if not os.path.exists(KNOWN):
-        return []
-    with open(KNOWN) as f:
-        return json.load(f)["findings"]
+    """known_findings.json plus the per-property parts under known_findings.d/ (read-only at run time)."""
+    out = []
+    if os.path.exists(KNOWN):
+        with open(KNOWN) as f:
+            out += json.load(f)["findings"]
+    d = os.path.join(VERIF, "known_findings.d")
+    if os.path.isdir(d):
+        for fn in sorted(os.listdir(d)):
+            if fn.endswith(".json"):
+                with open(os.path.join(d, fn)) as f:
+                    out += json.load(f)["findings"]
+    return out
 
 
 # ------------------------------------------------------------------ the check object
